@@ -25,7 +25,11 @@ Fail-closed.  From the working tree `repo` (pure AST, nothing is imported):
    is built from the `host_key` argument and the signature from the `sig` argument.  The verify call
    must be the whole (negated) condition -- a conjunction / disjunction around it is refused.  One
    extra rejection `expected = self.host_key_type.replace(..); if Message(sig).get_binary() !=
-   b(expected): raise SSHException` before the check is recognised (verify_alg_guard).
+   b(expected): raise SSHException` before the check is recognised (verify_alg_guard), and so is the
+   strict-blob test `x = Message(sig); x.get_binary(); x.get_binary(); if x.get_remainder(): raise`
+   (verify_canonical_guard);
+ * Transport._check_banner: what is stored in self.remote_version -- the line read from the peer, or
+   `buf` after it was re-bound to a slice of itself (banner_stored).
 """
 import ast
 import os
@@ -495,8 +499,29 @@ def walk_verify_key(fn):
     sig_from_arg = False
     stores = False
     alg_guard = False
+    canon = {"name": None, "reads": 0, "done": False}
     alg_names = {}       # local name -> True when it is <self.host_key_type>.replace(<const>, <const>)
     for st in body[1:]:
+        # sig_fields = Message(sig); sig_fields.get_binary(); sig_fields.get_binary();
+        # if sig_fields.get_remainder(): raise SSHException(...)     -- strict two-string signature blob
+        if isinstance(st, ast.Assign) and len(st.targets) == 1 and isinstance(st.targets[0], ast.Name) \
+                and is_call(st.value, "Message") and len(st.value.args) == 1 and isinstance(st.value.args[0], ast.Name) \
+                and st.value.args[0].id == sg and over is None and canon["name"] is None \
+                and st.targets[0].id not in (hk, sg, "key", "self"):
+            canon["name"] = st.targets[0].id
+            continue
+        if isinstance(st, ast.Expr) and isinstance(st.value, ast.Call) and canon["name"] is not None and over is None \
+                and dotted(st.value.func) in (canon["name"] + ".get_binary", canon["name"] + ".get_string",
+                                              canon["name"] + ".get_text") and not st.value.args and not canon["done"]:
+            canon["reads"] += 1
+            continue
+        if isinstance(st, ast.If) and canon["name"] is not None and is_call(st.test, canon["name"] + ".get_remainder") \
+                and not st.test.args and over is None and not canon["done"]:
+            if canon["reads"] != 2 or st.orelse or len(st.body) != 1 or not isinstance(st.body[0], ast.Raise) \
+                    or not is_call(st.body[0].exc, "SSHException"):
+                raise Unrecognised("%s: unrecognised trailing-data test (line %d)" % (where, st.lineno))
+            canon["done"] = True
+            continue
         if isinstance(st, ast.Assign) and len(st.targets) == 1 and isinstance(st.targets[0], ast.Name) \
                 and st.targets[0].id not in (hk, sg, "key", "self"):
             # expected = self.host_key_type.replace("-cert-v01@openssh.com", "")
@@ -555,7 +580,44 @@ def walk_verify_key(fn):
         raise Unrecognised("%s: unrecognised statement (line %d)" % (where, st.lineno))
     if over is None:
         raise Unrecognised(where + ": verify_ssh_sig is never consulted")
-    return over, raises, key_from_arg, sig_from_arg, stores, alg_guard
+    if canon["name"] is not None and not canon["done"]:
+        raise Unrecognised(where + ": signature blob parsed but its remainder is never tested")
+    return over, raises, key_from_arg, sig_from_arg, stores, alg_guard, canon["done"]
+
+
+def walk_check_banner(fn):
+    """What Transport._check_banner stores in self.remote_version: the line read from the peer (BLine) or a
+    cut-down copy (BStripped: `buf` re-bound to a slice of itself before the store)."""
+    where = "transport._check_banner"
+    seen_read = False
+    stored = None
+    cut = False
+    for st in fn.body:
+        for n in ast.walk(st):
+            if not isinstance(n, (ast.Assign, ast.AugAssign)):
+                continue
+            targets = n.targets if isinstance(n, ast.Assign) else [n.target]
+            for t in targets:
+                d = dotted(t)
+                if d == "buf":
+                    v = n.value
+                    if isinstance(n, ast.Assign) and is_call(v, "self.packetizer.readline"):
+                        seen_read = True
+                    elif stored is None:
+                        if isinstance(n, ast.Assign) and isinstance(v, ast.Subscript) and dotted(v.value) == "buf":
+                            cut = True
+                        else:
+                            raise Unrecognised("%s: buf re-bound before remote_version is stored (line %d)" % (where, n.lineno))
+                elif d == "self.remote_version":
+                    if n is not st or stored is not None or not isinstance(n, ast.Assign) or dotted(n.value) != "buf" \
+                            or not seen_read:
+                        raise Unrecognised("%s: unrecognised store to remote_version (line %d)" % (where, n.lineno))
+                    stored = "BStripped" if cut else "BLine"
+                elif d is None or d.startswith("self.") and d not in ("self.remote_version",):
+                    raise Unrecognised("%s: unrecognised assignment target (line %d)" % (where, n.lineno))
+    if stored is None:
+        raise Unrecognised(where + ": remote_version is never stored")
+    return stored
 
 
 def coqbool(b):
@@ -581,6 +643,7 @@ def generate(repo):
     w("Inductive arg := AK | AH.")
     w("Inductive setkh_stmt := AssignK (a : arg) | AssignH (a : arg) | AssignSid (a : arg) | LatchSid (a : arg).")
     w("Inductive vsrc := VH | VK | VSid.")
+    w("Inductive bannersrc := BLine | BStripped.")
     w("")
     check_subclasses(repo)
     lay = {}
@@ -625,13 +688,13 @@ def generate(repo):
     w("")
     rel = "transport.py"
     tms = methods(class_def(parse_module(repo, rel), "Transport", rel))
-    for nm in ("_set_K_H", "_verify_key"):
+    for nm in ("_set_K_H", "_verify_key", "_check_banner"):
         if nm not in tms:
             raise Unrecognised("Transport.%s not found" % nm)
     prog = walk_set_K_H(tms["_set_K_H"])
     w("(* Transport._set_K_H, statement by statement *)")
     w("Definition setkh_prog : list setkh_stmt := [%s]." % "; ".join(prog))
-    over, raises, kfa, sfa, stores, alg_guard = walk_verify_key(tms["_verify_key"])
+    over, raises, kfa, sfa, stores, alg_guard, canon_guard = walk_verify_key(tms["_verify_key"])
     w("(* Transport._verify_key: what is verified, whether a failed verify raises, whether key / signature are the arguments *)")
     w("Definition verify_over : vsrc := %s." % over)
     w("Definition verify_raises : bool := %s." % coqbool(raises))
@@ -640,6 +703,10 @@ def generate(repo):
     w("Definition verify_stores_key : bool := %s." % coqbool(stores))
     w("(* an extra `if <algorithm named in the signature blob> != <negotiated algorithm>: raise` before the check *)")
     w("Definition verify_alg_guard : bool := %s." % coqbool(alg_guard))
+    w("(* `if <bytes after the two strings of the signature blob>: raise` before the check *)")
+    w("Definition verify_canonical_guard : bool := %s." % coqbool(canon_guard))
+    w("(* Transport._check_banner: what is kept as remote_version (the V_S / V_C this side hashes) *)")
+    w("Definition banner_stored : bannersrc := %s." % walk_check_banner(tms["_check_banner"]))
     w("")
     return {"C06_gen.v": "\n".join(out) + "\n"}
 
